@@ -139,26 +139,7 @@ def check_props(pid: str, timeout: int = 600) -> dict:
     examples = re.findall(r"^Example\s+(\w+)", text, re.M)
     res["theorems"] = names
     res["examples"] = examples
-    r = run(["coqc", "-Q", "theories", "TF", "-Q", "props", "TFP", f"props/{pid}.v"],
-        timeout, cwd=COQ)
-    out = r.stdout
-    if r.returncode != 0:
-        res["built"] = False
-        res["log_tail"] = out[-3000:]
-        return res
-    # Print Assumptions blocks: either "Closed under the global context" or
-    # "Axioms:" followed by entries
-    blocks = re.split(r"(?=Closed under the global context|Axioms:)", out)
-    closed = 0
-    axioms: list[str] = []
-    for b in blocks:
-        if b.startswith("Closed under the global context"):
-            closed += 1
-        elif b.startswith("Axioms:"):
-            axioms.append(b.strip()[:400])
-    res["printed"] = len(re.findall(r"^Print Assumptions", text, re.M))
-    ok_file = closed == res["printed"] and not axioms
-    # independently: Print Assumptions for EVERY theorem of the property file
+    # Print Assumptions for EVERY theorem of the (freshly built) property file
     d = BUILD / "pa"
     d.mkdir(parents=True, exist_ok=True)
     pa = d / f"PA_{pid}.v"
@@ -171,11 +152,9 @@ def check_props(pid: str, timeout: int = 600) -> dict:
         res["log_tail"] = r2.stdout[-3000:]
         return res
     blocks2 = re.split(r"(?=Closed under the global context|Axioms:)", r2.stdout)
-    closed2 = sum(1 for b in blocks2 if b.startswith("Closed under the global context"))
-    axioms += [b.strip()[:400] for b in blocks2 if b.startswith("Axioms:")]
-    res["closed"] = closed2 if ok_file else min(closed, closed2)
-    res["printed"] = len(names) if ok_file else res["printed"]
-    res["open"] = axioms
+    res["closed"] = sum(1 for b in blocks2 if b.startswith("Closed under the global context"))
+    res["open"] = [b.strip()[:400] for b in blocks2 if b.startswith("Axioms:")]
+    res["printed"] = len(names)
     res["forbidden"] = scan_forbidden()
     res["wall_s"] = round(time.time() - t0, 2)
     # supporting lemma count: Lemma/Theorem in the theories the file requires
